@@ -11,5 +11,13 @@ CLAIMED = {
    text="Proof level for the encoders listed in evidence: the bytes each request encoder returns are proved equal, for all argument values, to an independent grammar-derived encoding (header key/version/correlation id/client id, null vs empty, per-partition order of the grouped payloads, message CRC over the bytes after it, attributes). encode_produce_request is a bounded stand-in (labelled, not counted as discharged); API-version selection (client.get_api_version) is covered by its own contract.",
    note="Trusted: pyvc encoding; struct/str codecs as uninterpreted functions; zlib.crc32 uninterpreted; group_by_topic_and_partition's contract (result == grouped(payloads)) is assumed in the encoders' proofs and checked only by the bounded stand-in.",
    ref='DESIGN.md section 8 C04, section 12'),
+ 'C06': dict(
+   text="Proof level for _KafkaBrokerClient's request table: object invariant (key == request id, one Deferred answers one id, an uncancelled entry's Deferred is unfired, tombstones were sent) proved preserved by every entry point and asserted at every synchronous excursion into foreign code (re-entrancy); every callback/errback site carries a proved 'not already fired' precondition (at most once); handleResponse fires only the Deferred owned by the frame's correlation id, after removing it. Frame reassembly is Twisted's Int32StringReceiver (assumed).",
+   note="Trusted: pyvc heap/re-entrancy encoding, the Twisted Deferred contract (fires at most once, callbacks on a fired Deferred run at once), the snapshot-loop rule used for _connectionLost. 'Exactly once' is proved as 'at most once' plus 'removed from the table only when fired or being cancelled'; eventual completion (liveness) is not claimed.",
+   ref='DESIGN.md section 8 C06, section 12'),
+ 'C10': dict(
+   text="Proof level for the reconnect discipline: invariants 'a pending connection attempt is an UNFIRED Deferred' and 'unanswered requests imply a connection or an attempt in progress' are preserved by every entry point of _KafkaBrokerClient (makeRequest, _connectionLost, cbConnect, ebConnect, cbDelayed, close ...); _connectionLost leaves no tombstone and marks survivors unsent; _sendQueued sends only entries still in the table with sent None.",
+   note="Order of re-sending (table order) follows from iterating the ordered table and is not separately proved; backoff values are the retry policy's (external). Trusted: Twisted contracts, pyvc.",
+   ref='DESIGN.md section 8 C10, section 12'),
 }
 NOT_APPLICABLE = {}
